@@ -38,8 +38,10 @@ RAW_SNIPPETS = [
      "#if GE(3) && defined(A)", "int raw@_a;", "#elif GE(4)", "int raw@_b;", "#else", "int raw@_c;", "#endif",
      "#undef GE", "#undef GE0", "#undef BASE", "#undef LVL"],
     # token pasting through a second level (arguments are expanded before pasting)
-    ["#define CAT_(a, b) a##b", "#define CAT(a, b) CAT_(a, b)", "#define V1 7", "#if CAT(V, 1) == 7 && defined(B)",
-     "int raw@_a;", "#else", "int raw@_b;", "#endif", "#undef V1", "#undef CAT", "#undef CAT_"],
+    # (only while V is undefined: pasting onto a number such as 2U would not be a valid constant)
+    ["#define CAT_(a, b) a##b", "#define CAT(a, b) CAT_(a, b)", "#define V1 7", "#ifndef V",
+     "#if CAT(V, 1) == 7 && defined(B)", "int raw@_a;", "#else", "int raw@_b;", "#endif", "#else",
+     "#if CAT_(V, 1) == 7", "int raw@_c;", "#endif", "#endif", "#undef V1", "#undef CAT", "#undef CAT_"],
     # variadic (forms the SUT supports; a variadic macro whose body ignores __VA_ARGS__ crashes it - C03, not claimed)
     ["#define SUM(...) (0 + __VA_ARGS__)", "#define REST(a, ...) __VA_ARGS__", "#if SUM(V + 0) > 1 || REST(0, W + 0) > 2",
      "int raw@_a;", "#else", "int raw@_b;", "#endif", "#undef SUM", "#undef REST"],
@@ -173,6 +175,8 @@ def draw_cfg(r, profile):
         "p_defaults_hdr": r.choice([0.0, 0.15, 0.3]),
         "p_decoy_dir": r.choice([0.0, 0.2, 0.4]),
         "p_undef_hdr": r.choice([0.0, 0.15, 0.3]),
+        "p_eol": r.choice([0.0, 0.0, 0.15, 0.4]),
+        "p_variant_twin": r.choice([0.0, 0.2, 0.5]),
         "hdr_name_style": r.choice(["plain", "plain", "odd"]),
         "p_forced_rel": r.choice([0.0, 0.5]),
         "cpp": r.random() < 0.3,
@@ -545,12 +549,16 @@ class Gen:
         if cfg["ext_dir"]:
             inc_pool.append(EXT_DIR)
         for pi in range(cfg["n_plat"]):
-            name = f"p{pi}" if r.random() < 0.7 else f"plat{pi}"
+            # (no dots: ensure_ext() rejects the dendrogram and database file names they would lead to)
+            name = r.choice([f"p{pi}", f"p{pi}", f"p{pi}", f"plat{pi}", f"gpu-{pi}", f"X_{pi}"])
             ents = []
             self._plat_base = None
             for s in srcs:
                 for _ in range(r.choice([0, 1, 1, 2][: cfg["tus_max"] + 1])):
                     ents.append(self.entry(s, inc_pool, hdrs))
+            if ents and r.random() < cfg.get("p_variant_twin", 0.0):
+                # the same command once more with exactly ONE thing different
+                self.variant_twin(ents)
             if cfg.get("max_entries_per_platform"):
                 r.shuffle(ents)
                 ents = ents[: cfg["max_entries_per_platform"]]
@@ -563,8 +571,18 @@ class Gen:
                 continue
             plats.append({"name": name, "db": f"proj/db/{name}.json", "entries": ents})
         files.update(self.extra_files)
+        for pth in sorted(files):
+            k = r.random()
+            if "items" in files[pth] and k < cfg.get("p_eol", 0.0):
+                files[pth]["eol"] = "crlf" if k < cfg["p_eol"] * 0.6 else "nofinal"
         w = {"root": ROOT, "files": files, "dirs": dirs, "links": links, "platforms": plats,
              "excludes": [], "cbi_config": None}
+        from .world import render_file
+        for pth in sorted(files):
+            if files[pth].get("eol") == "nofinal":
+                lines = render_file(w, pth)
+                if len(lines) >= 2 and lines[-2][1].endswith("\\"):
+                    del files[pth]["eol"]     # gcc warns about a continued line that ends the file
         if cfg["excludes"] and not cfg.get("fortran"):
             w["excludes"] = r.choice([["d2/"], ["*.hpp"], ["inc2/"], ["d2/*", "!d2/s*"], ["*.h", "!h0.h", "inc1/"],
                                       ["d1/*", "!d1/inc", "!d1/*.c"]])
@@ -612,9 +630,10 @@ class Gen:
             if k < 0.2:
                 defs.append(m)
             elif k < 0.35:
-                defs.append(f"{m}=0")
+                defs.append(f"{m}=" + r.choice(["0", "0", "0x0", "00", "0U"]))
             elif k < 0.5:
-                defs.append(f"{m}=2")
+                # the same number in the spellings C allows
+                defs.append(f"{m}=" + r.choice(["2", "2", "0x2", "02", "2U", "2L", "2UL"]))
         incs = []
         for d in r.sample(inc_pool, r.randint(0, min(3, len(inc_pool)))):
             incs.append(["isystem" if r.random() < cfg["p_isystem"] else "I", d])
@@ -865,6 +884,39 @@ class Gen:
         else:
             e["command"] = shlex.join(argv)
         return e
+
+    def variant_twin(self, ents):
+        from .world import entry_argv
+        r = self.r
+        e = dict(r.choice(ents))
+        argv = entry_argv(e)
+        if len(argv) < 2:
+            return
+        kind = r.choice(["output", "drop_define", "swap_includes", "add_define", "same"])
+        body = argv[1:-1] if argv[-1] == e["file"] else argv[1:]
+        tail = [argv[-1]] if argv[-1] == e["file"] else []
+        if kind == "output":
+            body = body + ["-o", f"other_{r.randint(0, 9)}.o"]
+        elif kind == "drop_define":
+            ds = [i for i, a in enumerate(body) if a.startswith("-D") and len(a) > 2]
+            if ds:
+                del body[r.choice(ds)]
+        elif kind == "add_define":
+            have = set()
+            for i, a in enumerate(body):
+                if a.startswith("-D"):
+                    have.add((a[2:] if len(a) > 2 else (body[i + 1] if i + 1 < len(body) else "")).split("=")[0])
+            free = [m for m in FLAG_MACROS if m not in have]
+            if free:
+                body = body + ["-D" + r.choice(free)]
+        elif kind == "swap_includes":
+            ix = [i for i, a in enumerate(body) if a.startswith("-I") and len(a) > 2]
+            if len(ix) >= 2:
+                i, j = r.sample(ix, 2)
+                body[i], body[j] = body[j], body[i]
+        e.pop("command", None)
+        e["arguments"] = [argv[0]] + body + tail
+        ents.insert(r.randint(0, len(ents)), e)
 
     def twin_entries(self, w):
         """C13: the same command text run from two sibling directories (d1 and d2 both have an `inc`
